@@ -5,7 +5,7 @@ SPEC = {
     'claimed': True,
     'theorems': ['C35_terminates', 'C35_no_deadlock', 'C35_second_phase_terminates',
                  'C35_single_goroutine_correct',
-                 'C35_delivers_if_servable',
+                 'C35_delivers_if_servable', 'C35_delivers_guard_explicit', 'C35_behind_peer_first_example',
                  'C35_delivered_only_served', 'C35_trace_justified',
                  'C35_failed_peer_not_reasked',
                  'C35_not_reasked_in_task_refuted', 'C35_not_reasked_in_task_partial',
@@ -27,11 +27,15 @@ SPEC = {
             'enters the reply order when its consequence (next request / nothing left to ask) is seen. Streams: witness (the inputs of the '
             'three fixed findings and of the open one), limit (one peer, 52-54 heights: requests held at the peer after the burst, largest number of outstanding '
             'requests ever, heights delivered - against the model\'s burst and limit_of), ack, single, guarded-single / guarded-multi (some peer serves every height, so no height '
-            'fails in phase one: any spec failure is a violation), multi, wrong, dup, slow-* (own process each: sleeping goroutines, '
+            'fails in phase one: any spec failure is a violation), guarded-mixed / guarded-mixed-behind-first (2-5 peers with DIFFERENT reported heights, Start-2 .. End+2, '
+            'one of them behind the end of the range; latencies distinct / tied / unknown (pid order decides), behind-first = the peer that sorts first reports less than End, so '
+            'availbTask has to pass over it; any failing behaviour incl. wrong heights, also peers that are behind but would answer; for every height some peer that reports >= it and serves it, '
+            'so the whole range must be delivered and nobody sleeps; 4 fixed members + 44 generated, run in 3 lane processes (one world each) with a budget that covers 50 x 400 ms of sleeping in both '
+            'phases and a 45 s box per lane after which no further case is started - on a tree where a goroutine is left without a peer the lanes run fewer cases), multi, wrong, dup, slow-* (own process each: sleeping goroutines, '
             'peers below the height, silent peers in phase one and in front of a sleeping goroutine; the former aliasing witnesses cfg_lost and cfg_reask). Observables: acknowledgement, order of '
             'answers, trace of task-list constructions (Peerstore.LatencyEWMA calls) / requests seen by the peers / blocks '
             'received by a fake blockchain module, handler return. non-trivial = the acknowledgement is not ok or some request '
-            'was not answered with the requested block; distinct = distinct Gallina case terms',
+            'was not answered with the requested block or some given peer reports a height below End; distinct = distinct Gallina case terms',
     'trusted_base': [
         'the transition system of Model.v is a hand transcription of handler.go/download.go/task.go: critical sections under the '
         'task-list mutex (Sort, availbTask, without) are atomic events, releaseJob is an event of its own, the request/answer is '
